@@ -1,5 +1,6 @@
 """C12 — blackboard reads are atomic and monotone; one writer at a time."""
 import core, re
+import pC12ports
 
 
 def seqlock_oracle(e):
@@ -39,6 +40,8 @@ def run(ctx):
                              label="seqlock.random", oracle=seqlock_oracle)
         core.trace_component(ctx, "seqlock", ["exhaustive", "--seed", ctx.seed + 1, "--cases", 2500 if quick else 20000, "--progs", 4 if quick else 14,
                                               "--preempt", 2 if quick else 3], label="seqlock.exhaustive", oracle=seqlock_oracle)
+        # port level: Writer / Reader / entry handles / loans through the public API vs the Blackboard model
+        pC12ports.ports_part(ctx)
         # cell layout functions (sizes 1..300, alignments 1..256, aligned and unaligned payload addresses): part of the alloc component
         core.diff_component(ctx, "alloc", ["gen", "--seed", ctx.seed, "--cases", 1200 if quick else 20000, "--len", 4], classify, label="layout")
     return core.finish(
@@ -49,4 +52,4 @@ def run(ctx):
              "functions compared with the arithmetic model for random sizes / alignments / payload addresses. distinct = distinct (program, interleaving)",
         extra_assumptions=["the instrumented implementation cannot be preempted inside a plain memcpy: word-level interleavings are covered by the theorem (the model steps word by word), not by the traces",
                            "sequentially consistent interleavings only; the RA argument (acquire load / release fetch_add / acq-rel validating CAS) is not mechanised",
-                           "writer port / entry-handle uniqueness at port level is exercised by the blackboard port checks (C08), not here"])
+                           "port level: " + str(getattr(pC12ports, "RULE", ""))[:500]] + list(getattr(pC12ports, "ASSUMPTIONS", [])))
